@@ -974,6 +974,12 @@ class FortranBackend(BaseBackend):
 
         substituted = expr.xreplace(substitutions) if substitutions else expr
         substituted = substituted.xreplace({sp.pi: sp.Symbol('pi')})
+        # the derivative of `absv` arrives as an undefined function `sign` of one argument, which is not a Fortran
+        # intrinsic (SIGN takes two): sympy's own sign prints as a valid expression
+        substituted = substituted.replace(
+            lambda e: isinstance(e, sp.Function) and e.func.__name__ == 'sign' and len(e.args) == 1
+            and not isinstance(e, sp.sign),
+            lambda e: sp.sign(e.args[0], evaluate=False))
         # ``human=False`` returns ``(constants, not_supported, code)`` and
         # therefore skips the leading ``parameter (...)`` declarations.
         _consts, _not_supported, text = fcode(
